@@ -7,6 +7,7 @@
 // then read back with the real get*() primitives, both directly and through the copy constructor.
 // The reference knows only the wire layout: a get of n bytes at position p may succeed only if
 // p+n <= min(size field, maxSize); a string is an int length L (0 <= L <= maxSize) followed by L bytes.
+// A message whose size field exceeds maxSize is malformed as a whole and may be refused at any get.
 // Every message object lives in front of a 64 KB guard area filled with a sentinel, so a read beyond
 // the object is observed by the reference instead of killing the run; ASan still guards everything
 // else (the temporary buffer in getString(), String, the put side).
@@ -178,6 +179,12 @@ bool runGets(Msg &m, const Wire &w, const std::vector<char> &gets, const std::st
             return false;
         }
         if (!ok && refOk) {
+            if (w.size > MaxSize) {
+                // a message whose size field exceeds the buffer is malformed as a whole: it may be
+                // refused at any get (it must just never be read past the buffer, see above)
+                if (tally) V::outcome("get-rejected:oversize-message");
+                return true;
+            }
             failCapped("get:threw-on-well-formed-data", std::string("a get threw although the data is present and well-formed") + where());
             return false;
         }
